@@ -113,12 +113,14 @@ type Gen struct {
 	NoCustom    bool           // only standard tags and filters
 	ArrEmphasis bool           // C03/C04: prefer arrays with mutating-looking filters
 	focus       []filt         // swarm: a few filters used much more often than the rest, with varied arguments
+	env         *Env           // bindings the templates are generated over (for boundary-value arguments)
+	hint        int            // length of the value the next filter is applied to, -1 if unknown
 }
 
 var allFeatures = []string{"trim", "raw", "comment", "tablerow", "cycle", "capture", "case", "custom", "errors", "filters", "assign", "breaks", "unless", "loopmods", "nest"}
 
 func NewGen(r *Rng, budget int) *Gen {
-	g := &Gen{r: r, feat: map[string]bool{}, budget: budget, used: map[string]int{}}
+	g := &Gen{r: r, feat: map[string]bool{}, budget: budget, used: map[string]int{}, hint: -1}
 	// swarm: each run enables a random subset of features
 	for _, f := range allFeatures {
 		if r.Chance(0.7) {
@@ -224,16 +226,16 @@ var strFilters = []filt{
 		if g.r.Chance(0.5) {
 			return ": " + g.intLit()
 		}
-		return ": " + g.intLit() + ", " + fmt.Sprint(g.r.Range(0, 5))
+		return ": " + g.intLit() + ", " + fmt.Sprint(g.near(0, 5))
 	}},
 	{"truncate", func(g *Gen, sc scope) string {
 		if g.r.Chance(0.15) {
 			return "" // every optional argument omitted
 		}
 		if g.r.Chance(0.5) {
-			return ": " + fmt.Sprint(g.r.Range(3, 12))
+			return ": " + fmt.Sprint(g.near(3, 12))
 		}
-		return ": " + fmt.Sprint(g.r.Range(3, 12)) + ", " + quote(pick(g.r, []string{"", "..", "~"}))
+		return ": " + fmt.Sprint(g.near(3, 12)) + ", " + quote(pick(g.r, []string{"", "..", "~"}))
 	}},
 	{"truncatewords", func(g *Gen, sc scope) string {
 		switch g.r.Intn(5) {
@@ -294,10 +296,38 @@ var arrScalarFilters = []filt{
 	{"first", noArgs}, {"last", noArgs}, {"size", noArgs}, {"json", noArgs}, {"inspect", noArgs},
 }
 
+// lenHint: the rune length of the value an expression atom denotes, if known.
+func (g *Gen) lenHint(atom string) int {
+	if len(atom) >= 2 && (atom[0] == '"' || atom[0] == '\'') {
+		return len([]rune(atom)) - 2
+	}
+	if g.env != nil {
+		if v := g.env.get(atom); v != nil && v.T == "str" {
+			return len([]rune(v.S))
+		}
+	}
+	return -1
+}
+
+// near returns a threshold argument: close to the input's length when that is
+// known (boundary values: thresholds just below, at and just above the length).
+func (g *Gen) near(lo, hi int) int {
+	if g.hint >= 0 && g.r.Chance(0.6) {
+		n := g.hint + g.r.Range(-3, 3)
+		if n < 0 {
+			n = 0
+		}
+		return n
+	}
+	return g.r.Range(lo, hi)
+}
+
 func (g *Gen) chain(base string, fs []filt, sc scope, max int) string {
 	if !g.feat["filters"] {
 		max = 1
 	}
+	g.hint = g.lenHint(base)
+	defer func() { g.hint = -1 }()
 	for i, n := 0, g.r.Intn(max+1); i < n; i++ {
 		f := pick(g.r, fs)
 		if len(g.focus) > 0 && g.r.Chance(0.5) {
@@ -308,6 +338,7 @@ func (g *Gen) chain(base string, fs []filt, sc scope, max int) string {
 		}
 		g.use("filter:" + f.name)
 		base += " | " + f.name + f.args(g, sc)
+		g.hint = -1 // unknown after a filter
 	}
 	return base
 }
@@ -678,7 +709,15 @@ var filtByName = func() map[string]filt {
 // same inputs, same filters, other argument values.
 func (g *Gen) reArg(expr string, sc scope) string {
 	parts := strings.Split(expr, " | ")
+	g.hint = -1
+	if len(parts) > 0 {
+		g.hint = g.lenHint(strings.TrimSpace(parts[0]))
+	}
+	defer func() { g.hint = -1 }()
 	for i := 1; i < len(parts); i++ {
+		if i > 1 {
+			g.hint = -1
+		}
 		name := parts[i]
 		if j := strings.IndexByte(name, ':'); j >= 0 {
 			name = name[:j]
@@ -696,6 +735,7 @@ func (g *Gen) reArg(expr string, sc scope) string {
 // filter to the same inputs with nearby arguments: the situation in which state
 // keyed by an incomplete function of the arguments (a memo, a cache) goes wrong.
 func (g *Gen) Sibling(ns []*TNode, e *Env) []*TNode {
+	g.env = e
 	out := cloneTree(ns)
 	sc := scopeOf(e)
 	var walk func(ns []*TNode)
@@ -722,8 +762,44 @@ func (g *Gen) Sibling(ns []*TNode, e *Env) []*TNode {
 	return out
 }
 
+func inFilts(l []filt, name string) bool {
+	for _, f := range l {
+		if f.name == name {
+			return true
+		}
+	}
+	return false
+}
+
+// Sweep generates a flat template (no control flow, so every site executes) that
+// applies the focus filters n times to a few inputs with boundary-value arguments.
+func (g *Gen) Sweep(e *Env, focus []filt, n int) []*TNode {
+	g.env = e
+	sc := scopeOf(e)
+	var out []*TNode
+	for i := 0; i < n; i++ {
+		f := pick(g.r, focus)
+		var atom string
+		switch {
+		case inFilts(numFilters, f.name):
+			atom = g.numAtom(sc)
+		case inFilts(arrFilters, f.name) && len(sc.arrs) > 0:
+			atom = pick(g.r, sc.arrs)
+		default:
+			atom = g.strAtom(sc)
+		}
+		g.hint = g.lenHint(atom)
+		expr := atom + " | " + f.name + f.args(g, sc)
+		g.hint = -1
+		g.use("filter:" + f.name)
+		out = append(out, &TNode{K: "obj", S: expr}, &TNode{K: "text", S: "|"})
+	}
+	return out
+}
+
 // Template generates one template tree.
 func (g *Gen) Template(e *Env) []*TNode {
+	g.env = e
 	ns := g.Nodes(scopeOf(e), 0, 8)
 	g.fixErrors(ns)
 	return ns
